@@ -623,8 +623,70 @@ def translate_multidomain():
              "    Except Err (List (List Int) × Option IntArr) := do"] + body + [""])
 
 
+def _origins(f):
+    """Where the values a function returns come from (flow-insensitive, syntactic): `call:<callee>` / `method:<name>` (a new
+    object made by that call), `literal`, `arith`, `param:<name>` (an argument handed back) or `global:<name>` (a module-level
+    or attribute-held object handed out).  Names are resolved through every assignment to them in the function."""
+    params = {a.arg for a in f.args.args} | ({f.args.vararg.arg} if f.args.vararg else set())
+    assigns = {}
+    for n in ast.walk(f):
+        if isinstance(n, ast.Assign):
+            for t in n.targets:
+                for x, v in (zip(t.elts, [n.value] * len(t.elts)) if isinstance(t, ast.Tuple) else [(t, n.value)]):
+                    if isinstance(x, ast.Name):
+                        assigns.setdefault(x.id, []).append(v)
+        elif isinstance(n, (ast.For, ast.comprehension)) and isinstance(n.target, ast.Name):
+            assigns.setdefault(n.target.id, []).append(ast.Constant(0))
+
+    def org(e, seen):
+        if isinstance(e, ast.Call):
+            if isinstance(e.func, ast.Attribute) and not ast.unparse(e.func).startswith(("np.", "grid.")):
+                return {"method:" + e.func.attr}
+            return {"call:" + ast.unparse(e.func)}
+        if isinstance(e, (ast.Attribute, ast.Subscript, ast.Starred)):
+            if isinstance(e, ast.Attribute) and isinstance(e.value, ast.Name) and e.value.id == "self":
+                return {"global:self." + e.attr}
+            return org(e.value, seen)
+        if isinstance(e, ast.Tuple):
+            return set().union(*[org(x, seen) for x in e.elts])
+        if isinstance(e, (ast.BinOp, ast.UnaryOp, ast.Compare, ast.BoolOp)):
+            return {"arith"}
+        if isinstance(e, (ast.Constant, ast.List, ast.ListComp, ast.Dict, ast.JoinedStr)):
+            return {"literal"}
+        if isinstance(e, ast.IfExp):
+            return org(e.body, seen) | org(e.orelse, seen)
+        if isinstance(e, ast.Name):
+            if e.id in seen:
+                return set()
+            if e.id in assigns:
+                return set().union(*[org(v, seen | {e.id}) for v in assigns[e.id]])
+            return {("param:" if e.id in params else "global:") + e.id}
+        return {"other:" + type(e).__name__}
+    out = set()
+    for n in ast.walk(f):
+        if isinstance(n, ast.Return) and n.value is not None:
+            out |= org(n.value, frozenset())
+    return sorted(out)
+
+
+def translate_effects():
+    """Decorators and origins of the returned values of the carried functions (round 6: freshness / no aliasing)."""
+    ut = ast.parse((SRC / "utils.py").read_text())
+    bgt = ast.parse((SRC / "basegrid.py").read_text())
+    rows = [("utils.generate_orders_horton_order", _function(ut, "generate_orders_horton_order")),
+            ("utils.dipole_moment_of_molecule", _function(ut, "dipole_moment_of_molecule")),
+            ("basegrid.Grid.moments", _function(bgt, "moments", "Grid")), ("basegrid.Grid.integrate", _function(bgt, "integrate", "Grid"))]
+    q = lambda xs: "[" + ", ".join('"' + x.replace("\\", "\\\\").replace('"', '\\"') + '"' for x in xs) + "]"
+    out = ["/-- Per carried function: its decorators and where the values it returns come from (`call:` / `method:` a new object",
+           "made by that call, `literal`, `arith`; `param:` an argument handed back, `global:` an object that outlives the call). -/",
+           "def returnOrigins : List (String × List String × List String) := ["]
+    out += ["  (" + q([name])[1:-1] + ", " + q([ast.unparse(d) for d in f.decorator_list]) + ", " + q(_origins(f)) + ")" + ("," if i + 1 < len(rows) else "")
+            for i, (name, f) in enumerate(rows)]
+    return out + ["]", ""]
+
+
 def translate():
-    return "\n".join(translate_moments() + translate_integrate() + translate_masses() + translate_dipole() + translate_multidomain())
+    return "\n".join(translate_moments() + translate_integrate() + translate_masses() + translate_dipole() + translate_multidomain() + translate_effects())
 
 
 def generate():
